@@ -88,6 +88,9 @@ def export_gate(rec, F):
                     for w, d, outc in gs:
                         if sem.desc_call_name(d) == "contains" and outc is True and ("exports" in str(d)):
                             ok = True
+        if not ok:
+            # the same gate written as `lookup.filter(|_| self.exports.contains(&name))`
+            ok = sem.option_chain_filtered(F, ge, lambda c, t: sem.closure_returns_call(c, "contains", "exports"))
         rec.inst(R, "get_exported_symbol_by_name:Some-under-contains", ok=ok, loc=ge.loc)
         if not ok:
             rec.finding(R, "F4.export/exported-guard", "get_exported_symbol_by_name returns Some(symbol) without a dominating exports.contains(name) == true", loc=ge.loc, fn=ge.path)
@@ -206,8 +209,9 @@ def status_mapping(rec, F):
                 rec.finding(R, "F4.status/run/%s/no-arm" % var, "Vm::run has no arm for ExecutionResult::%s" % var, loc=run.loc, fn=run.path)
                 continue
             tuples = []
+            rets = sem.return_aliases(run)
             for bi, si, s in run.stmts():
-                if bi in reg and s["d"]["l"] == 0 and s["r"]["k"] == "agg" and s["r"]["adt"] == "tuple":
+                if bi in reg and s["d"]["l"] in rets and not s["d"]["p"] and s["r"]["k"] == "agg" and s["r"]["adt"] == "tuple":
                     tuples.append((bi, s))
             if var == "Ok":
                 ok = not tuples and any(lastseg(tt["f"]) == "internal_error" for bi, tt in run.calls() if bi in reg)
